@@ -124,7 +124,7 @@ class C07(PropBase):
 
     def gen_case(self, rng, kind):
         cfg = {}
-        if rng.random() < 0.3:
+        if rng.random() < 0.3 or kind == "notations":
             cfg["tz"] = {"offset": rng.choice(["+02:00", "-05:00", "+05:45", "+00:00", "-09:30"])}
         comms = rng.sample(POOL, rng.randrange(2, 5))
         rc = rng.choice(comms)
@@ -159,7 +159,7 @@ class C07(PropBase):
         # instants for price entries
         def near():
             r = rng.random()
-            if r < 0.5 or kind == "at-instant":
+            if r < 0.5 or kind in ("at-instant", "notations"):
                 return rng.choice(tns) + rng.choice([-1, 0, 0, 1])
             if before_ns is not None and (r < 0.7 or kind == "given-edge"):
                 return before_ns + rng.choice([-1, 0, 0, 1])
@@ -438,6 +438,42 @@ class C07(PropBase):
                     return {"sig": "register-figures", "what": "register row %s, expected %s %s base=%s rate=%s total=%s %s" % (
                         str(row), o["acct"], o["amount"], exp_base, exp_rate, totals[k], c["comm"])}
         return None
+
+    # -- shrinking of an oracle failure: drop transactions and price entries while the same failure remains
+    def rebuild(self, case, txns, prices):
+        c = dict(case)
+        c["txns"] = txns
+        c["prices"] = prices
+        c["text"] = common.render_journal(txns)
+        cfg = dict(case["cfg"])
+        pc = dict(cfg["price"])
+        pc["db"] = "".join("P %s %s %s %s\n" % (e["text"], e["base"], e["rate"], e["target"]) for e in prices)
+        cfg["price"] = pc
+        c["cfg"] = cfg
+        return c
+
+    def shrink(self, failure):
+        case, sig = failure["case"], failure["oracle"].get("sig")
+        best = dict(failure)
+        budget = 60
+        changed = True
+        while changed and budget > 0:
+            changed = False
+            txns, prices = best["case"]["txns"], best["case"]["prices"]
+            cands = [(txns[:i] + txns[i + 1:], prices) for i in range(len(txns)) if len(txns) > 1]
+            cands += [(txns, prices[:i] + prices[i + 1:]) for i in range(len(prices)) if len(prices) > 1]
+            for tx, pr in cands:
+                if budget <= 0:
+                    break
+                budget -= 1
+                c = self.rebuild(best["case"], tx, pr)
+                impl = common.run_driver([common.TK_IMPL], [self.impl_case(c)], jobs=1)[0]
+                of = self.oracle(c, impl)
+                if of and of.get("sig") == sig:
+                    best = dict(case=c, impl=impl, model=None, oracle=of)
+                    changed = True
+                    break
+        return best
 
     def nontrivial(self, case, impl):
         if impl.get("r") != "OK" or impl["conv"].get("r") != "OK":
